@@ -94,19 +94,38 @@ type c09State struct {
 }
 
 func TestVerifC09Stress(t *testing.T) {
-	rec := ev.New("C09", "stress")
+	// two stable epochs (2 and 9) with the churn epochs in between: the oldest / newest epoch never change
+	c09Stress(t, "stress", []uint64{2, 9}, []uint64{4, 5, 6})
+}
+
+// TestVerifC09StressSingle: ONE stable epoch; the churn epochs make the set flap between one and
+// several loaded epochs (the single-epoch fast paths are entered and left under the readers' feet).
+func TestVerifC09StressSingle(t *testing.T) {
+	c09Stress(t, "stress-single", []uint64{2}, []uint64{4, 5})
+}
+
+func c09Stress(t *testing.T, part string, stableNums, churnNums []uint64) {
+	rec := ev.New("C09", part)
 	defer rec.Flush()
+	// is the newest / oldest loaded epoch always a stable one?
+	newestStable, oldestStable := true, true
+	for _, c := range churnNums {
+		if c > stableNums[len(stableNums)-1] {
+			newestStable = false
+		}
+		if c < stableNums[0] {
+			oldestStable = false
+		}
+	}
 	rec.Rule("readers issuing every query kind (JSON-RPC getSlot/getFirstAvailableBlock/getBlock/getTransaction/getSignaturesForAddress/getBlockTime/getVersion, /api/v1, gRPC GetBlock/GetTransaction/GetBlockTime, epoch listing) against stable epochs while writers AddEpoch/ReplaceOrAddEpoch/RemoveEpoch/RemoveEpochByConfigFilepath churn epochs; distinct = (query kind, writer kind) pairs observed overlapping in time")
 	seed := ev.Seed()
-	root := filepath.Join(ev.Scratch(), "c09")
+	root := filepath.Join(ev.Scratch(), "c09-"+part)
 	os.MkdirAll(root, 0o755)
 	defer os.RemoveAll(root)
-	stableNums := []uint64{2, 9}
-	churnNums := []uint64{4, 5, 6}
 	var fxs []*vfEpochFx
 	{
 		var wg sync.WaitGroup
-		fxs = make([]*vfEpochFx, 2)
+		fxs = make([]*vfEpochFx, len(stableNums))
 		for i, e := range stableNums {
 			wg.Add(1)
 			go func(i int, e uint64) {
@@ -139,8 +158,13 @@ func TestVerifC09Stress(t *testing.T) {
 	rng := rand.New(rand.NewSource(seed))
 	var reqs []*c09Req
 	add := func(r *c09Req) { reqs = append(reqs, r) }
-	add(&c09Req{Name: "getSlot", Kind: "jsonrpc", Body: `{"jsonrpc":"2.0","id":1,"method":"getSlot"}`})
-	add(&c09Req{Name: "getFirstAvailableBlock", Kind: "jsonrpc", Body: `{"jsonrpc":"2.0","id":1,"method":"getFirstAvailableBlock"}`})
+	if newestStable {
+		add(&c09Req{Name: "getSlot", Kind: "jsonrpc", Body: `{"jsonrpc":"2.0","id":1,"method":"getSlot"}`})
+	}
+	if oldestStable {
+		// (otherwise the oldest loaded epoch may be a file-less churn epoch)
+		add(&c09Req{Name: "getFirstAvailableBlock", Kind: "jsonrpc", Body: `{"jsonrpc":"2.0","id":1,"method":"getFirstAvailableBlock"}`})
+	}
 	for _, fx := range fxs {
 		m := fx.Model
 		for i := 0; i < 6; i++ {
@@ -234,12 +258,18 @@ func TestVerifC09Stress(t *testing.T) {
 					case 1:
 						multi.CountEpochs()
 					case 2:
-						if e, err := multi.GetMostRecentAvailableEpoch(); err != nil || e.Epoch() != 9 {
-							rec.Violation("MultiEpoch.GetMostRecentAvailableEpoch/wrong", fmt.Sprintf("got %v err %v, the newest loaded epoch is 9", e, err), state)
+						if !newestStable {
+							break
+						}
+						if e, err := multi.GetMostRecentAvailableEpoch(); err != nil || e.Epoch() != stableNums[len(stableNums)-1] {
+							rec.Violation("MultiEpoch.GetMostRecentAvailableEpoch/wrong", fmt.Sprintf("got %v err %v, the newest loaded epoch is %d", e, err, stableNums[len(stableNums)-1]), state)
 						}
 					case 3:
-						if e, err := multi.GetOldestAvailableEpoch(); err != nil || e.Epoch() != 2 {
-							rec.Violation("MultiEpoch.GetOldestAvailableEpoch/wrong", fmt.Sprintf("got %v err %v, the oldest loaded epoch is 2", e, err), state)
+						if !oldestStable {
+							break
+						}
+						if e, err := multi.GetOldestAvailableEpoch(); err != nil || e.Epoch() != stableNums[0] {
+							rec.Violation("MultiEpoch.GetOldestAvailableEpoch/wrong", fmt.Sprintf("got %v err %v, the oldest loaded epoch is %d", e, err, stableNums[0]), state)
 						}
 					case 4:
 						multi.GetMostRecentAvailableEpochNumber()
@@ -342,7 +372,7 @@ loop:
 			parked, other := 0, 0
 			var sample string
 			for _, gtxt := range strings.Split(string(buf), "\n\n") {
-				relevant := strings.Contains(gtxt, "TestVerifC09Stress.func") || strings.Contains(gtxt, "yellowstone-faithful.(*MultiEpoch)") || strings.Contains(gtxt, "yellowstone-faithful.FirstSuccess")
+				relevant := strings.Contains(gtxt, "c09Stress.func") || strings.Contains(gtxt, "yellowstone-faithful.(*MultiEpoch)") || strings.Contains(gtxt, "yellowstone-faithful.FirstSuccess")
 				if !relevant || strings.Contains(gtxt, "runtime.Stack(") {
 					continue
 				}
